@@ -340,7 +340,7 @@ CHECKS["C02"]["runs"] = CHECKS["C02"]["runs"] + [TSSTEP]
 CHECKS["C18"]["runs"] = CHECKS["C18"]["runs"] + [TSSTEP]
 
 VIEW = {"name": "conc.view", "files": [G + "c08_view.go", G + "c08_race.go", G + "c06_reload.go"] + MUX, "fn": "VerifH_C08_view", "workers": 16, "params": {"VARIANT": 1, "PRE": 5},
-        "preempt_quick": 2, "preempt_thorough": 3, "reach": ["raced", "end"]}
+        "preempt_quick": 3, "preempt_thorough": 4, "reach": ["raced", "end"]}
 VIEW2 = dict(VIEW, name="conc.view.fmp4", params={"VARIANT": 2, "PRE": 5})
 CHECKS["C08"]["runs"] = CHECKS["C08"]["runs"] + [VIEW, VIEW2]
 CHECKS["C04"]["runs"] = CHECKS["C04"]["runs"] + [VIEW, VIEW2]
